@@ -353,7 +353,8 @@ def run_case(files, tree: str, rf: Tuple[int, ...], names: List[str], assign: Tu
                      f"header alias {old} is {'true' if truth else 'false'} under C truthiness ({hdr_dep.get(old)!r}), expected {exp!r} ({new} = {values[new]})")
         else:
             hv = hdr_dep.get(old)
-            if present_expected and values[new] != "":
+            # (a NUMBER without a value has no #define of its own, so nothing to alias; an empty STRING is `#define X ""`)
+            if present_expected and (values[new] != "" or typ == "string"):
                 if hv is None or hv.lstrip("!") != f"CONFIG_{new}" or (hv.startswith("!")):
                     viol({"kind": "alias_value", "format": "header", "inverted": inv, "type": typ}, f"header alias {old} -> {hv!r}, expected plain CONFIG_{new}")
         # cmake
